@@ -92,3 +92,61 @@ package simpledb
 //@   ensures [ack-implies-applied] r0 == nil ==> mst(db.memStore.writeStore, content(byteKey)) == 1
 //@   call 0 of Delete: assert [C17,C02,C13:logged-before-applied] walCount(db.wal) == old(walCount(db.wal)) + 1 && walErr(db.wal, old(walCount(db.wal))) == nil
 //@   modifies walCount(db.wal), mst(db.memStore.writeStore, content(byteKey)), mvl(db.memStore.writeStore, content(byteKey))
+
+// ---------------------------------------------------------------------------------------------------
+// C06: selection of the tables to compact. floodFill closes every gap between selected tables.
+
+//@ func floodFill
+//@   props C06 C01
+//@   replay flood_fill
+//@   safety on
+//@   ensures [same-slice] r0 === a
+//@   ensures [monotone] forall k :: 0 <= k && k < len(a) && old(a[k]) ==> r0[k]
+//@   ensures [gap-free] forall p, k, q :: 0 <= p && p < k && k < q && q < len(a) && r0[p] && r0[q] ==> r0[k]
+//@   ensures [nothing-outside] forall k :: 0 <= k && k < len(a) && r0[k] && !old(a[k]) ==>
+//@           (exists p :: 0 <= p && p < k && old(a[p])) && (exists q :: k < q && q < len(a) && old(a[q]))
+//@   modifies a[*]
+//@   loop 0
+//@     invariant 0 <= i && i <= len(a)
+//@     invariant forall k :: 0 <= k && k < len(a) && old(a[k]) ==> a[k]
+//@     invariant forall k :: i <= k && k < len(a) ==> a[k] == old(a[k])
+//@     invariant forall p, k :: 0 <= p && p < k && k <= i && k < len(a) && a[p] ==> a[k]
+//@     invariant forall p :: 0 <= p && p < i && a[p] ==> i < len(a)
+//@     invariant forall k :: 0 <= k && k < len(a) && a[k] && !old(a[k]) ==>
+//@           (exists p :: 0 <= p && p < k && old(a[p])) && (exists q :: k < q && q < len(a) && old(a[q]))
+//@   loop 1
+//@     invariant 0 <= i && i < j && j <= len(a) && a[i]
+//@     invariant forall k :: i < k && k < j ==> !a[k]
+//@     invariant forall k :: 0 <= k && k < len(a) && old(a[k]) ==> a[k]
+//@     invariant forall k :: i <= k && k < len(a) ==> a[k] == old(a[k])
+//@     invariant forall p, k :: 0 <= p && p < k && k <= i && k < len(a) && a[p] ==> a[k]
+//@     invariant forall k :: 0 <= k && k < len(a) && a[k] && !old(a[k]) ==>
+//@           (exists p :: 0 <= p && p < k && old(a[p])) && (exists q :: k < q && q < len(a) && old(a[q]))
+//@   loop 2
+//@     invariant 0 <= i && i <= x && x <= j + 1 && j < len(a) && i < j
+//@     invariant forall k :: i <= k && k < x ==> a[k]
+//@     invariant old(a[j]) && old(a[i])
+//@     invariant forall k :: 0 <= k && k < len(a) && old(a[k]) ==> a[k]
+//@     invariant forall k :: j < k && k < len(a) ==> a[k] == old(a[k])
+//@     invariant forall k :: x <= k && k <= j ==> a[k] == old(a[k])
+//@     invariant forall p, k :: 0 <= p && p < k && k <= i && k < len(a) && a[p] ==> a[k]
+//@     invariant forall k :: 0 <= k && k < len(a) && a[k] && !old(a[k]) ==>
+//@           (exists p :: 0 <= p && p < k && old(a[p])) && (exists q :: k < q && q < len(a) && old(a[q]))
+
+//@ func (*SSTableManager).candidateTablesForCompaction
+//@   props C06 C01
+//@   requires s.managerLock != nil
+//@   requires forall t :: 0 <= t && t < len(s.allSSTableReaders) ==> s.allSSTableReaders[t] != nil
+//@   exit [selection-gap-free] forall p, k, q :: 0 <= p && p < k && k < q && q < len(selectedForCompaction) && selectedForCompaction[p] && selectedForCompaction[q] ==> selectedForCompaction[k]
+//@   exit [selection-covers-all-tables] len(selectedForCompaction) == len(s.allSSTableReaders)
+//@   // the correspondence "returned paths = base paths of the selected tables, in table order" needs witnesses for an
+//@   // existential per element; it is checked by the bounded driver candidate_tables (all selections over <= 6 tables)
+//@   modifies nothing
+//@   loop 0
+//@     invariant 0 <= i && i <= len(s.allSSTableReaders) && len(selectedForCompaction) == i
+//@     invariant isnil(selectedForCompaction) || fresh(selectedForCompaction)
+//@   loop 1
+//@     invariant 0 <= i && i <= len(s.allSSTableReaders) && len(selectedForCompaction) == len(s.allSSTableReaders)
+//@     invariant isnil(selectedPaths) || fresh(selectedPaths)
+//@     invariant fresh(selectedForCompaction) || len(selectedForCompaction) == 0
+//@     invariant forall p, k, q :: 0 <= p && p < k && k < q && q < len(selectedForCompaction) && selectedForCompaction[p] && selectedForCompaction[q] ==> selectedForCompaction[k]
